@@ -42,7 +42,10 @@ package patch
 
 // Comments are only ever removed, and only those lying entirely inside a changed interval; the lines they
 // occupied are merged (C17). No comment is added, moved or duplicated here.
-//@ func cleanupFilePos(tfile, cl, comments)
+//@ func cleanupFilePos(tfile, cl, comments) (kept)
+//@   ensures [C08,C17] no-group-without-comments-stays-in-the-files-list: forall j int {kept[j]} :: 0 <= j && j < len(kept) ==> len(kept[j].List) > 0
+//@   ensures [C17] the-kept-groups-are-a-list-of-their-own: arr(kept) == 0 || fresh(arr(kept))
+//@   ensures [C17] no-group-is-added: len(kept) <= len(comments)
 //@   at call (*go/token.File).MergeLine assert [C08,C17] only-physical-lines-are-merged: isPhysLine(tfile, arg1)
 //@   assigns allof("F.S_ast_CommentGroup.List")
 //@   loop 0
@@ -68,3 +71,7 @@ package patch
 //@   loop 5
 //@     invariant [C08,C17] i < len(lines) && forall j int {lines[j]} :: 0 <= j && j < len(lines) ==> isPhysLine(tfile, lines[j])
 //@     decreases i + 1
+//@   loop 6
+//@     invariant [C08,C17] forall j int {kept[j]} :: 0 <= j && j < len(kept) ==> len(kept[j].List) > 0
+//@     invariant [C17] len(kept) <= #k
+//@     invariant arr(kept) == 0 || fresh(arr(kept))
